@@ -843,6 +843,14 @@ def compact_probes():
                                   ('store_many', [((2, 2, 1), 9), ((2, 2, 2), 10)], ()),
                                   ('load_many', [(2, 2, 2), (2, 2, 1), (1, 1, 1)], ()), ('load', (2, 2, 1, ())),
                                   ('load', (2, 2, 2, ()))], 'probe:same-block-other-level'))
+        # neighbouring index entries (v1: (x, y+1) follows (x, y); v2: (x+1, y) follows (x, y)): removing / storing one
+        # leaves the neighbours alone
+        nb = [(5, 6, 3), (5, 7, 3), (6, 6, 3), (5, 5, 3), (4, 6, 3), (5, 127, 3), (6, 0, 3), (127, 6, 3), (0, 7, 3)]
+        out.append(({'kind': k}, [('store', c + ((),), 6 + i) for i, c in enumerate(nb)] +
+                    [('remove', (5, 6, 3, ())), ('load_many', nb, ()), ('remove', (5, 127, 3, ())), ('remove', (127, 6, 3, ())),
+                     ('load_many', nb, ()), ('store', (5, 6, 3, ()), 16), ('load_many', nb, ()), ('reopen',),
+                     ('cached', (5, 7, 3, ())), ('cached', (6, 0, 3, ())), ('cached', (0, 7, 3, ()))],
+                    'probe:index-neighbours'))
         for pad in (0, 60, 64 + 8 * 16384 + 4, 4999):
             out.append(({'kind': k}, [('store', (255, 255, 9, ()), 6), ('store', (128, 128, 9, ()), 7),
                                       ('grow', ((128, 128, 9), pad)),
